@@ -157,7 +157,7 @@ func (c *Channel) Open() (reterr error) {
 	// getting round to reporting that it has exited
 	c.readLoopExited = &atomic.Bool{}
 
-	go c.read()
+	go c.read(c.done, c.readLoopDone, c.readLoopExited)
 
 	if c.AuthBypass {
 		c.l.Debug("auth bypass is enabled, skipping in channel auth check")
